@@ -118,6 +118,7 @@ enum Step {
     Dispatch,
     Read(u32, usize),
     RSub(u32, usize, u8), // real side submits: via 0 = send_data, 1 = write_data_frame
+    StallSub(u32, usize, u64), // real side submits while the transport accepts only a few more bytes, for so many seconds
     Quiesce,
 }
 
@@ -284,7 +285,8 @@ impl RigB {
             }
             Step::RSub(sid, len, via) => {
                 self.collect_new_streams().await;
-                if !*self.open.get(sid).unwrap_or(&false) { return; }
+                // the peer's FIN ends only the peer's direction: the real side may go on submitting on the
+                // stream object it holds (half-close)
                 let Some(stm) = self.streams.get(sid).cloned() else { return };
                 let inc = self.inc[sid];
                 let off = self.sub_from[sid];
@@ -293,6 +295,29 @@ impl RigB {
                 ev!(log, "psh", dir: self.from_dir, sid: *sid, len: *len);
                 let ok = if *via == 0 { stm.send_data(Bytes::from(data)).is_ok() }
                          else { self.sess.write_data_frame(*sid, Bytes::from(data)).await.is_ok() };
+                ev!(log, "pshres", dir: self.from_dir, sid: *sid, ok: ok);
+                quiesce().await;
+                self.obs.observe(log, &self.out);
+            }
+            Step::StallSub(sid, len, secs) => {
+                // back-pressure: the peer stops draining in the middle of a frame and resumes much later
+                self.collect_new_streams().await;
+                if !self.streams.contains_key(sid) { return; }
+                let inc = self.inc[sid];
+                let off = self.sub_from[sid];
+                self.sub_from.insert(*sid, off + *len as u64);
+                let data = pgen::fill(self.key(self.from_dir, *sid, inc), off, *len);
+                ev!(log, "psh", dir: self.from_dir, sid: *sid, len: *len);
+                let base = self.out.written();
+                self.out.block_writes_at(base + r.range(1, 12));
+                let (sess, sid2) = (self.sess.clone(), *sid);
+                let h = tokio::task::spawn_local(async move { sess.write_data_frame(sid2, Bytes::from(data)).await.is_ok() });
+                quiesce().await;
+                tokio::time::sleep(std::time::Duration::from_secs(*secs)).await;
+                quiesce().await;
+                self.out.unblock_writes();
+                quiesce().await;
+                let ok = matches!(tokio::time::timeout(std::time::Duration::from_secs(7200), h).await, Ok(Ok(true)));
                 ev!(log, "pshres", dir: self.from_dir, sid: *sid, ok: ok);
                 quiesce().await;
                 self.obs.observe(log, &self.out);
@@ -370,7 +395,7 @@ fn random_steps(r: &mut Rng, server_role: bool) -> Vec<Step> {
             8 | 9 => Step::Dispatch,
             10 | 11 => Step::Read(sid, *r.pick(&[1usize, 3, 7, 64, 8192, 70000])),
             12 | 13 => Step::RSub(sid, match r.below(5) { 0 => 0, 1 => *r.pick(&[65535usize, 65536, 70000, 131072]), _ => r.range(1, 9000) as usize }, r.below(2) as u8),
-            14 => Step::Quiesce,
+            14 => if r.chance(1, 3) { Step::StallSub(sid, r.range(1, 9000) as usize, *r.pick(&[1u64, 9, 11, 31, 61, 301, 3601])) } else { Step::Quiesce },
             _ => Step::Psh(r.range(5, 9) as u32, r.range(0, 50) as usize), // never-opened id
         });
     }
